@@ -618,6 +618,7 @@ class Impl:
                 info["pre_deadlock"] = self.deadlock_view()
                 r = cs.run_maintenance()
                 info["events"] = [(num(e.operation_id), e.reason.value) for e in r["apoptosis"]]
+                info["boosts"] = [(num(b.operation_id), b.boosted_priority) for b in r["priority_boosts"]]
                 return f"{self.show_boosts(r['priority_boosts'])} {self.show_events(r['apoptosis'])}", info
             if k == "exec" and len(t) == 7:
                 return self.do_exec(t, info), info
